@@ -59,12 +59,15 @@ def decode_path(ex, st, napps):
                 ucd = dval(ex, st, ex.discr_of(st, uc).t)
                 I_.has_update = None
                 I_.version = None
+                I_.has_uc = ucd
+                I_.status_term = None
                 if ucd == 0:
                     I_.has_update = False
                 elif ucd == 1:
                     ucv = payload(ex, st, uc, 1, 0, 'protocol::response::UpdateCheck')
                     sdt = ex.discr_of(st, ex.child(st, ucv, fidx(ex, 'protocol::response::UpdateCheck', 'status'), 'protocol::response::OmahaStatus')).t
                     hu = dval(ex, st, sdt == 0)
+                    I_.status_term = sdt
                     I_.has_update = bool(hu) if hu is not None else None
                     man = ex.child(st, ucv, fidx(ex, 'protocol::response::UpdateCheck', 'manifest'), 'std::option::Option<protocol::response::Manifest>')
                     I_.manifest = man
@@ -156,6 +159,7 @@ def monitor_tail(chk, shapes):
         ('reports-exact', 'the sequence of event reports is exactly the one the outcome calls for: parse error -> one report for all apps; plan error / deferred / denied -> one report for exactly the known offered apps; install -> download-started, per-app results in response order, then update-complete for exactly the installed apps; each event carries the app version as previous and the manifest version as next version; same session id, fresh request id, the policy\'s request parameters'),
         ('lost-events', 'an undeliverable report is counted (once for a single-event report, once per event for the per-app report), never retried, and changes neither the announced states nor the result'),
         ('install-gated', 'the installer is invoked only after update_can_start answered Ok for the plan that try_create_install_plan returned; reboot_needed is asked only after an install with no failed app and for that plan; a deferral or denial leads to no install'),
+        ('check-body-frame', 'perform_update_check itself never touches the failure counter or the last-contact time (they are assigned once, by its caller, after the outcome is known): whatever is persisted in the middle of a check - a changed poll interval is - carries the bookkeeping of the last completed check, never a mixture'),
     ):
         obs[name] = chk.ob(name, desc)
     Ds = {}
@@ -200,6 +204,11 @@ def monitor_tail(chk, shapes):
             check_result(ex, st, F, Ds['check-result'])
             check_reports(ex, st, F, Ds['reports-exact'], Ds['lost-events'])
             check_gating(ex, st, F, Ds['install-gated'])
+            import sutmon
+            c0_, l0_ = sutmon.ctx_terms(ex, State())
+            c1_, l1_ = sutmon.ctx_terms(ex, st)
+            Ds['check-body-frame'].require(st, z3.And(c1_.t == c0_.t, sutmon.opt_pct_eq(ex, st, l1_, l0_)),
+                                           'failure counter and last-contact time untouched by the body of the check')
             key = path_key(ex, st, F)
             obs_out = (tuple(F.ynames), result_shape(ex, st))
             groups.setdefault(key, set()).add(obs_out)
